@@ -64,7 +64,10 @@ def stepJoin (st : JDrv) (ws : List String) : JDrv × String :=
     let (n', done) := newTickPoll set n
     ({ st with cur := .new n' done e }, if done then "resolved" else "P")
   | ["enum"], some _, .new n true false =>
-    let outs := (newTickJoin n.ls n.rs).mergeSort (fun a b => a.1 ≤ b.1)
+    -- the multiset: sorted lexicographically (order depends on hash iteration / orientation)
+    -- the transcribed `NewTickJoinIter` state machine, pulled to its end (fuel: `newTickJoin_length_le`)
+    let outs := (newTickRun (n.ls.table.size * n.rs.table.size + 1) n.ls n.rs).mergeSort (fun a b =>
+      a.1 < b.1 || (a.1 == b.1 && (a.2.1 < b.2.1 || (a.2.1 == b.2.1 && a.2.2 ≤ b.2.2))))
     ({ st with cur := .new n true true },
       if outs.isEmpty then "-" else ";".intercalate (outs.map showOut))
   | ["endtick", c], some _, cur =>
